@@ -349,7 +349,8 @@ package tlog
 //@   loop 0:
 //@     invariant t.N >= 0 ==> 0 <= n && n <= t.N && NHIGH(t.N) + PAD3(t.N % 1000) == NHIGH(n) + nStr
 //@     decreases n
-//@   uses cat_assoc
+//@   uses cat_assoc pow2_mono
+//@   hint pow2(62)
 //@   props C10
 
 //@ func (*tileHashReader).ReadHashes
